@@ -124,6 +124,46 @@ DESC = {
  "C19-6": ("buckets refilled every millisecond with the per-tick amount rounded up", "a configured rate that is not a multiple of 1000 B/s and a sender backlogged beyond the burst"),
  "C20-5": ("RemotePort default moved into ParseConfig", "plugin mode without RemotePort in the options: SS_REMOTE_PORT is ignored"),
  "C20-6": ("ServerName=random resolved once in ProcessRawConfig", "more than one connection: all carry the same generated name"),
+ "C01-7": ("inactivity timer kept in one time.Timer; Stop()'s false result ignored, checkTimeout no longer looks at the stream count", "the timer expiring while a stream is being opened or accepted: the session is closed with \"timeout\" underneath it"),
+ "C01-8": ("a stream that does not fit the accept queue is dropped (select/default) instead of waiting", "more than 1024 streams pending acceptance: the 1025th's first frame is lost, later frames park forever"),
+ "C02-7": ("frames that are not next are copied outside the lock; after re-locking a frame that became next is pushed without draining when the heap is not empty", "three receive loops: frame k+2 parked, k+1 mid-copy, k delivered in the gap: stream stalls"),
+ "C02-8": ("a 16 MiB budget for parked bytes that is charged payload+14 and refunded payload", "about 1.2 million frames through the heap of one long-lived stream: a frame one step out of order is refused"),
+ "C03-7": ("closing-frame padding length computed in uint8 (255+1 wraps to 0)", "the random draw 0xFF (1 close in 256): the closing frame is refused as empty and never sent"),
+ "C03-8": ("recvBuf.Close moved below the closing-frame send", "a reader parked on the closing side, and the connection's write failing on exactly the closing frame: the reader hangs"),
+ "C04-7": ("closeStream returns its send buffer to the pool twice", "an earlier active stream close, then two overlapping senders: they share one buffer, a frame on the wire carries the other's bytes"),
+ "C04-8": ("the idle-timeout path builds its closing notice in a 286-byte local buffer", "a padding draw that makes the notice larger (about half of them): no notice, connections stay open"),
+ "C05-7": ("TLSConn.Read hand-written loop clears io.EOF without checking the length", "the peer closing after the header and before the last body byte: truncated record with nil error"),
+ "C05-8": ("WebSocketConn write lock replaced by a flag + Cond with `if` instead of `for`", "three writers: two parked ones are woken together and write at once"),
+ "C06-7": ("the server time for the window check is the whole-second value stored in the replay cache", "a client clock leading by 179..180 s with the server clock at a non-zero sub-second phase: refused"),
+ "C06-8": ("UID trimmed of trailing zero bytes", "a UID ending in 0x00"),
+ "C07-7": ("account cache in the local manager; a reader may store what it read before a concurrent write invalidated the entry", "lookup R1 between its read and its store, an admin write in that window, then a connection R2: accepted from the stale entry"),
+ "C07-8": ("TERMINATE only in the round in which credit crosses zero", "an admin setting an active user's credit to <= 0: never terminated, later first packets join its session"),
+ "C08-7": ("replay cache capped at 65536 entries, oldest evicted", "65536 other first packets inside the window, then the replay"),
+ "C08-8": ("a failed reply write makes the server forget the handshake's random", "the recorded hello presented again after its connection was cut before the reply"),
+ "C09-7": ("unknown-proxy-method rejection moved behind the session lookup", "a hello naming a live session of its user and a bogus method: answered, not relayed"),
+ "C09-8": ("redirect dialer given an absolute Deadline computed at start-up instead of a Timeout", "any unauthenticated peer once the server has been up for 10 s: dial fails, nothing relayed"),
+ "C10-7": ("switchboard.send retries on another connection after a write timeout", "a timeout after part of a record has left, then more frames on that connection: bytes that are not records"),
+ "C10-8": ("write-buffer pool shared by all TLSConns + a buffer Put twice on a write error", "a failed write on one connection, then two overlapping writers on others: one Write carries the other's record"),
+ "C11-7": ("inactivity measured from the last receipt, before authentication", "junk arriving less than one timeout apart: an idle session never times out"),
+ "C11-8": ("AEAD branch slices off the tag before the (plain-mode) minimum-length guard", "a 22..29 byte message under an AEAD method with a small decrypted extra-length byte: negative slice bound, panic"),
+ "C12-7": ("closeAll stops iterating when a connection's Close returns an error", "three connections, two failing in close succession: the third is never closed"),
+ "C12-8": ("the nil placeholders of closed streams are swept every 4096 closures", "a late frame for a stream closed before the sweep: phantom stream, count stuck at 1"),
+ "C13-7": ("closing frame skipped when the closing side has sent nothing (Seq == 0) - also for accepted streams", "the accepting side closing before it wrote anything"),
+ "C13-8": ("Seq++ moved after the successful send", "a send that reaches the wire but reports an error while another receive loop has claimed the teardown: the retry reuses the number"),
+ "C14-7": ("datagram pipe buffers pooled and returned on every EOF read", "a closed stream read twice more, then two new streams: they share one byte buffer"),
+ "C14-8": ("a datagram handed directly to a waiting reader is lost when the reader's deadline passes first", "arrival at the instant the read deadline expires"),
+ "C15-7": ("a closed-but-unreaped session is rebuilt in place without asking the manager", "peer drops the connection, the user is revoked, a connection names the same session id"),
+ "C15-8": ("manager asked without the table lock; afterwards only the table size is compared", "A waits on the manager for id X, B creates X, C closes another session: A overwrites B's session"),
+ "C16-7": ("'one upload round at a time' guard whose skip path never decrements", "one round lasting longer than the upload interval: every later round is skipped"),
+ "C16-8": ("download TERMINATE at < 0 instead of <= 0", "download credit spent to exactly zero"),
+ "C17-7": ("GetUser checks isTerminated under the table lock + GetSession checks isListed under sessionsM", "three admissions (one waiting to write-lock the table): lock cycle"),
+ "C17-8": ("in-flight flag of the upload round not cleared on the error return", "one failed UploadStatus: no round ever runs again"),
+ "C18-7": ("WriteUserInfo returns early when no optional field is set", "POST with only a UID for a new user: 201 but no record"),
+ "C18-8": ("commitUpdate dereferences a nil record for a TERMINATE verdict on an inactive UID", "last session closed before the round that answers TERMINATE (credit exhausted / deleted): panic"),
+ "C19-7": ("a forgotten user's valve is parked and handed back on re-activation", "rates lowered through the admin API between two activations: old rates kept"),
+ "C19-8": ("the upload round deletes 'empty' records (no session, no traffic)", "the round firing between a connection's GetUser and GetSession: a second record and valve for the user"),
+ "C20-7": ("handshake-failure fallback to firefox for every signature but firefox", "BrowserSig=safari and one failed handshake: the retry presents firefox"),
+ "C20-8": ("connection goroutines share one transport config (pointer)", "chrome: one connection's handshake fails (legitimate fallback), a sibling that redials presents firefox too"),
 }
 head = subprocess.check_output(["git","-C","/repo","rev-parse","--short","HEAD"]).decode().strip()
 index = []
